@@ -74,19 +74,34 @@ def law_of(name, res, c):
     P_ = lambda t: poly(t)
     get = lambda slot: bound.get(slot, defaults.get(slot))
     eq = lambda x, y: pkey(x) == pkey(y)
+
+    def plain(*polys):
+        """every atom is a parameter of the factory or the square root of one: two different normal forms over such atoms are different functions. An atom
+        like abs(var ** 0.5) or max(lo, hi) is opaque to the polynomial form: a difference that involves one is not a decided difference"""
+        for p_ in polys:
+            for mono in p_:
+                for at in mono:
+                    if at[0] == "param" or is_sd_of(at, at[2] if len(at) > 2 and isinstance(at[2], tuple) and at[2][:1] == ("param",) else ("param", "?")) or \
+                            (at[0] == "ext" and at[1] in ("numpy.sqrt", "math.sqrt") and len(at[2]) == 1 and at[2][0][0] == "param"):
+                        continue
+                    return False
+        return True
+
+    def verdict(ok, text, *polys):
+        return (True, text) if ok else ((False, text) if plain(*polys) else None)
     try:
         if family == "uniform":
             lo_ = padd(a, pmul(b, P_(get("low"))))
             hi_ = padd(a, pmul(b, P_(get("high"))))
             ok = eq(lo_, P_(("param", "lo"))) and eq(hi_, P_(("param", "hi")))
-            return ok, "support [%s, %s)" % (_pf(lo_), _pf(hi_))
+            return verdict(ok, "support [%s, %s)" % (_pf(lo_), _pf(hi_)), lo_, hi_)
         loc_ = padd(a, pmul(b, P_(get("loc"))))
         sc_ = pmul(b, P_(get("scale")))
         if family == "normal":
             sds = [P_(("binop", "**", ("param", "var"), ("const", 0.5)))]
             sc_ok = any(eq(sc_, sd) for sd in sds) or eq(pmul(sc_, sc_), P_(("param", "var")))
-            return eq(loc_, P_(("param", "mean"))) and sc_ok, "mean %s, standard deviation %s" % (_pf(loc_), _pf(sc_))
-        return eq(loc_, P_(("param", "mean"))) and eq(sc_, P_(("param", "scale"))), "mean %s, scale %s" % (_pf(loc_), _pf(sc_))
+            return verdict(eq(loc_, P_(("param", "mean"))) and sc_ok, "mean %s, standard deviation %s" % (_pf(loc_), _pf(sc_)), loc_, sc_)
+        return verdict(eq(loc_, P_(("param", "mean"))) and eq(sc_, P_(("param", "scale"))), "mean %s, scale %s" % (_pf(loc_), _pf(sc_)), loc_, sc_)
     except Inconclusive:
         return None
 
